@@ -376,6 +376,14 @@ func nativePhase(ld *sym.Loaded, prop, tier string, outcomes []*hOutcome, outDir
 				o.valSkipped++
 				continue
 			}
+			if cr.PathsPruned > 0 && j >= len(o.res.Witnesses) {
+				// a RANDOM input that the engine prunes (it violates a harness or model assumption,
+				// e.g. "the modelled key generator never returns a key with a zero top byte"): the
+				// native run has no such assumption inside the real code, so there is nothing to
+				// compare. Solver-model witnesses never prune and are always compared.
+				o.valSkipped++
+				continue
+			}
 			f := filepath.Join(outDir, fmt.Sprintf("%s_val%d.json", o.res.Harness, j))
 			writeReplay(f, replayDoc{Harness: o.res.Harness, Tier: tier, Inputs: in})
 			it := &item{o: o, file: f, inputs: in, engObs: cr.Observes}
